@@ -37,7 +37,8 @@ REQUIRED_THEOREMS = ['Yaql.Props.C04.' + n for n in (
 TRUSTED = ['harness/evalref.py (plain-Python transcription of the language reference, second opinion for every case)',
            'harness/evalgen.py: the renderer AST -> yaql text (every generated text is parsed back by the engine under '
            'test and compared with the AST that goes to the model)']
-ASSUMPTIONS = ['documents are JSON-like: null / bool / int / str, lists, dicts with string keys (no floats, sets, host objects)',
+ASSUMPTIONS = ['model gap: a nameless unpack() over a lazy source that raises beyond its first element is outside the model (notes/C04.md); the generator does not produce it',
+               'documents are JSON-like: null / bool / int / str, lists, dicts with string keys (no floats, sets, host objects)',
                'functions of the fragment: let with def unpack list dict select where selectMany orderBy orderByDescending '
                'takeWhile skipWhile indexWhere toDict aggregate sum first toList take skip get len any all; operators '
                '+ - * = != < <= > >= and or not unary-; anything else is outside the model',
